@@ -32,8 +32,16 @@ pub proof fn contract_c18_2_norm_of_full_residual(density: RArr, rho_projected: 
                 / rsqrt((res.len + res_bulk.len) as real)
     })
 {
-    lemma_rsum_ext(density.len, el_tail__sumterm0(density, rho_projected), sq_diff(density, rho_projected));
-    lemma_rsum_ext(res_bulk.len, el_tail__sumterm1(res_bulk), sq(res_bulk));
+    // extensionality of the recursive sum for whatever summand functions the lifted code uses (no names of generated
+    // items in this proof: a variant of the code with other summands is refuted, not rejected)
+    lemma_rsum_ext_all();
+}
+proof fn lemma_rsum_ext_all()
+    ensures forall|n: int, f: spec_fn(int) -> real, g: spec_fn(int) -> real| #![trigger rsum(n, f), rsum(n, g)]
+        (forall|i: int| 0 <= i < n ==> #[trigger] f(i) == g(i)) ==> rsum(n, f) == rsum(n, g)
+{
+    assert forall|n: int, f: spec_fn(int) -> real, g: spec_fn(int) -> real| #![trigger rsum(n, f), rsum(n, g)]
+        (forall|i: int| 0 <= i < n ==> #[trigger] f(i) == g(i)) implies rsum(n, f) == rsum(n, g) by { lemma_rsum_ext(n, f, g); }
 }
 } // verus!
 fn main() {}
